@@ -284,13 +284,17 @@ def _check_main(ctx, res) -> None:
         if name.startswith("_") and name != "__init__" and name in mut_methods:
             # private helper: obligation is on its callers
             continue
-        cfg = CFG(m.node)
+        # the notification may be a private step of the method (`self._notify_moved(a, b)`): read in place -- but not the getter of the
+        # command object, by which the mutations are recognised
+        mnode = common.inline_private_calls(idx, m, keep=tuple(k for k in ops.methods if "fscommands" in k))
+        cfg = CFG(mnode)
         mut_nodes = []
+        dm = direct_mutations(mnode)
         for n in cfg.nodes:
             if n.ast is None or n.kind not in ("stmt", "test"):
                 continue
             for c in calls_in(n.ast) + ([n.ast] if isinstance(n.ast, ast.Call) else []):
-                if c in direct_mutations(m.node):
+                if c in dm:
                     mut_nodes.append((n, MUTATOR_KIND[c.func.attr]))
                 elif is_self_attr(c.func) and c.func.attr in mut_methods and c.func.attr != name:
                     for k in mut_methods[c.func.attr]:
@@ -407,7 +411,8 @@ def _check_main(ctx, res) -> None:
     inv = mc.methods.get("_invalidate_resource")
     if not inv:
         raise AnalysisError("anchor=_ModuleCache._invalidate_resource not found")
-    cfg = CFG(inv.node)
+    inv_node = common.inlined(idx, inv)  # the three actions may be a private step (`self._drop_cached_module(resource)`)
+    cfg = CFG(inv_node)
     rparam = first_param(inv.node)
     map_attr = None
     acts = {"forget": None, "unregister": None, "delete": None}
@@ -417,7 +422,7 @@ def _check_main(ctx, res) -> None:
         a = n.ast
         if isinstance(a, ast.Delete):
             for t in a.targets:
-                tv = common._subst_single_locals(inv.node, t.value) if isinstance(t, ast.Subscript) else None  # `m = self.module_map ... del m[resource]`
+                tv = common._subst_single_locals(inv_node, t.value) if isinstance(t, ast.Subscript) else None  # `m = self.module_map ... del m[resource]`
                 if isinstance(t, ast.Subscript) and is_self_attr(tv) and isinstance(t.slice, ast.Name) and t.slice.id == rparam:
                     acts["delete"] = n
                     map_attr = tv.attr
@@ -432,9 +437,9 @@ def _check_main(ctx, res) -> None:
                 pass
             if call_name(c) == "remove_resource" and c.args and isinstance(c.args[0], ast.Name) and c.args[0].id == rparam:
                 acts["unregister"] = n
-            if call_name(c) == "pop" and c.args and isinstance(c.args[0], ast.Name) and c.args[0].id == rparam and is_self_attr(common._subst_single_locals(inv.node, c.func.value)):
+            if call_name(c) == "pop" and c.args and isinstance(c.args[0], ast.Name) and c.args[0].id == rparam and is_self_attr(common._subst_single_locals(inv_node, c.func.value)):
                 acts["delete"] = n
-                map_attr = common._subst_single_locals(inv.node, c.func.value).attr
+                map_attr = common._subst_single_locals(inv_node, c.func.value).attr
     missing = [k for k, v in acts.items() if v is None]
     if not missing:
         # all three on the cached path: each action must be reached from the 'in map' true edge on every normal path
